@@ -4,7 +4,7 @@ from fractions import Fraction
 from .. import gen as G, num
 from ..core import Case, TOL, finite
 
-RULE = ("simplexes on dyadic grids (den 4..64), random representable floats and an uncertainty sweep, sizes 1..4; "
+RULE = ("simplexes on dyadic grids (den 4..64), random representable floats and an uncertainty sweep, sizes 1..5 and 7; "
         "trust levels 0, 1, dyadic and random floats, chains of 1..4 discounts; unlabelled, labelled (usize and newtype "
         "index) multi-arrays, Simplex / Opinion / OpinionRef receivers, f32 and f64; binomial trans_unc / trans_bsr / "
         "trans_opp on grid and float opinions; non-trivial = non-vacuous operand and not all trust levels in {0,1}")
@@ -36,9 +36,9 @@ def gen(rng, tier):
     out = []
     nrand = 40 if tier == "quick" else 1200
     for ty in ("f64", "f32"):
-        for n in (1, 2, 3, 4):
+        for n in (1, 2, 3, 4, 5, 7):
             ops = []
-            for _ in range(nrand):
+            for _ in range(nrand if n <= 4 else max(10, nrand // 3)):
                 ops.append(("grid", G.grid_simplex(rng, n, rng.choice([4, 8, 16, 64]))))
             for _ in range(nrand // 2):
                 ops.append(("float", G.float_simplex(rng, ty, n)))
